@@ -555,8 +555,46 @@ fn oracle(c: &WireCase, cx: &mut CaseCtx) -> Result<(), String> {
         // once a non-termination has been confirmed in this run, later watchdog hits (shrinking
         // re-evaluates many candidates) are judged by a short single wait
         let hang_known = HANG_CONFIRMED.load(std::sync::atomic::Ordering::SeqCst);
-        let reply = sup.worker.call(&frame(ep, payload), Duration::from_secs(if hang_known { 2 } else { 30 }));
+        let mut reply = sup.worker.call(&frame(ep, payload), Duration::from_secs(if hang_known { 2 } else { 30 }));
         sup.calls += 1;
+        if matches!(reply, Reply::Timeout) {
+            sup.canary.clear();
+            // A watchdog hit is a violation only if the same input alone never returns in three
+            // fresh processes (15 s each; 60 s each for the deliberately oversized nesting inputs,
+            // whose parse is quadratic and takes seconds on a loaded machine). An answer from a
+            // fresh process settles the case: the input terminates, and that answer is judged below
+            // like any other.
+            if hang_known && payload.len() <= 65_536 {
+                return Err(format!("entry point {ep} does not terminate on a {}-byte input (non-termination of this entry point was confirmed earlier in this run)", payload.len()));
+            }
+            let budget = if payload.len() <= 65_536 { 15 } else { 60 };
+            let (mut hangs, mut settled) = (0, None);
+            for _ in 0..3 {
+                if let Ok(mut w) = spawn() {
+                    match w.call(&frame(ep, payload), Duration::from_secs(budget)) {
+                        Reply::Timeout => hangs += 1,
+                        other => {
+                            settled = Some(other);
+                            break;
+                        }
+                    }
+                }
+            }
+            match settled {
+                Some(r) => {
+                    cx.class("watchdog_hit_settled_by_fresh_process");
+                    reply = r;
+                }
+                None if hangs == 3 => {
+                    HANG_CONFIRMED.store(true, std::sync::atomic::Ordering::SeqCst);
+                    return Err(format!("entry point {ep} does not terminate (3 fresh processes, {budget} s each) on a {}-byte input", payload.len()));
+                }
+                None => {
+                    INFRA.lock().unwrap().push(format!("watchdog hit on {ep} ({} bytes): no fresh process could be started to confirm it", payload.len()));
+                    return Ok(());
+                }
+            }
+        }
         let outcome = match reply {
             Reply::Ok(out) => String::from_utf8_lossy(&out).into_owned(),
             Reply::Died(status) => {
@@ -568,28 +606,7 @@ fn oracle(c: &WireCase, cx: &mut CaseCtx) -> Result<(), String> {
                 }
                 return Err(format!("entry point {ep} killed the process ({status}; stack exhaustion or abort) on a {}-byte input with nesting {nest}", payload.len()));
             }
-            Reply::Timeout => {
-                sup.canary.clear();
-                // a watchdog hit is a violation only if the same input alone never returns in
-                // three fresh processes with a 30 s budget each
-                if hang_known && payload.len() <= 65_536 {
-                    return Err(format!("entry point {ep} does not terminate on a {}-byte input (non-termination of this entry point was confirmed earlier in this run)", payload.len()));
-                }
-                let mut hangs = 0;
-                for _ in 0..3 {
-                    if let Ok(mut w) = spawn() {
-                        if matches!(w.call(&frame(ep, payload), Duration::from_secs(15)), Reply::Timeout) {
-                            hangs += 1;
-                        }
-                    }
-                }
-                if hangs == 3 && payload.len() <= 65_536 {
-                    HANG_CONFIRMED.store(true, std::sync::atomic::Ordering::SeqCst);
-                    return Err(format!("entry point {ep} does not terminate (3 fresh processes, 15 s each) on a {}-byte input", payload.len()));
-                }
-                INFRA.lock().unwrap().push(format!("watchdog hit on {ep} ({} bytes) not reproducible as non-termination", payload.len()));
-                return Ok(());
-            }
+            Reply::Timeout => unreachable!("settled above"),
         };
         if let Some(msg) = outcome.strip_prefix("LEAK:") {
             return Err(format!("entry point {ep}: a rejected input had an effect on later calls: {msg}"));
@@ -776,7 +793,7 @@ fn main() {
          Oracle: every call returns (no panic report, no abnormal process exit, no watchdog silence confirmed by three fresh 15 s runs), and every 250 calls the valid seeds of the entry point are re-evaluated in the same process and must give byte-identical results. Non-trivial = input that got past the entry point's first syntactic gate.",
     );
     ck.assume("input size <= 64 KiB (one PDU) except the explicit 65,536-byte boundary strings; JSON nesting <= 1,024; HTML nesting <= 21,845 = floor(65,535/3); 2 MiB thread stack");
-    ck.assume("a watchdog hit that three fresh 15 s runs do not reproduce is reported as inconclusive (exit 2), never as a violation");
+    ck.assume("a watchdog hit is re-run in up to three fresh processes (15 s each, 60 s for inputs above 64 KiB): an answer from one of them is judged like any other answer, three silences are a violation");
     let n = ck.n(120_000, 6_000_000);
     ck.prop("mutated_seeds", n, case_strategy, oracle);
     for e in INFRA.lock().unwrap().drain(..) {
